@@ -42,7 +42,7 @@ class C19(Prop):
     id = "C19"
     driver = "Calendar"
     quick_n = 40
-    thorough_n = 1500
+    thorough_n = 4000
     exhaustive_flag = True
     shrink_key = None
     rule = ("EXHAUSTIVE over the property's whole domain: every (class, year, month) with class in the eight built-in "
